@@ -167,7 +167,7 @@ PROPERTIES = {
     "C06": dict(
         bounds="sequential core on concrete scripts with symbolic payloads: 1..3 members, 1 or 2 selects per harness, messages of 1 and 2 packets; traffic queued before add (one and two messages, send order); a closure with nothing queued, a closure after a last message (message first, then exactly one closed event), the surviving member still served under its own id; ids pairwise distinct; the model's epoll is EDGE-triggered (a readiness edge is reported once) and flags a lost wake-up whenever a wait would block while a registered endpoint still has an unread packet or an unreported hang-up; a member whose sender died mid-message (C12); a backlog of 65 messages on one member drained by one select",
         outside="interleavings of sender threads with the selecting thread (Kani does not encode threads: every script here is one sequential history); more ready members than mio's event buffer (10) - the model's epoll holds 4 registrations; EINTR at other waits than the first; more than two selects in a row; the ipc-level wrapper IpcReceiverSet (iterator adaptors over the result enum: did not finish); the in-process, macOS and Windows back ends",
-        assumptions=[_A_KQ, _A_INJ, "hook H4: under cfg(kani) the member table (HashMap<Token, PollEntry>) is an association list with the same insert/get/remove/values surface - std's HashMap is trusted to be a map", "mio's Poll/Registry/Events/SourceFd code is the real one, compiled by Kani, over the model's epoll_create1/epoll_ctl/epoll_wait", "the set is forgotten, not dropped, at the end of each harness (std's OwnedFd debug check calls variadic fcntl with two arguments: kani-compiler ICE); the ledger accounts for the epoll descriptor and the members still registered", "rxset_one_member_eintr only: std::io::Error::kind is stubbed to answer from the model's errno (io::Error packs the code into pointer bits, which CBMC does not constant-fold: the unstubbed harness ran out of memory)", "select results are read in place and not dropped (non-constant enum discriminants, see DESIGN §2 lesson 4); the descriptor ledger shows that nothing was attached to them"]),
+        assumptions=[_A_KQ, _A_INJ, "hook H4: under cfg(kani) the member table (HashMap<Token, PollEntry>) is an association list with the same insert/get/remove/values surface - std's HashMap is trusted to be a map", "mio's Poll/Registry/Events/SourceFd code is the real one, compiled by Kani, over the model's epoll_create1/epoll_ctl/epoll_wait", "the set is forgotten, not dropped, at the end of each harness (std's OwnedFd debug check calls variadic fcntl with two arguments: kani-compiler ICE); the ledger accounts for the epoll descriptor and the members still registered", "rxset_one_member_eintr and rxset_add_refused only: std::io::Error::kind / raw_os_error are stubbed to answer from the model's errno (io::Error packs the code into pointer bits, which CBMC does not constant-fold: the unstubbed harness ran out of memory)", "select results are read in place and not dropped (non-constant enum discriminants, see DESIGN §2 lesson 4); the descriptor ledger shows that nothing was attached to them"]),
     "C13": dict(
         bounds="quick: every ENOBUFS pattern over the first 4 attempts (symbolic mask), lengths <= 2^22, buffer sizes in [4096, 2^20], <= 6 attempts, with and without 3 attachments, + concrete refused-first-fragment shapes and short follow-ups on the receive side; thorough: 8 mask bits, lengths <= 2^26, buffer sizes <= 2^24, <= 10 attempts; M-queries: downsize and the retry steps for all 64-bit values",
         outside="patterns beyond the masked attempts (M-query induction only); byte-exact delivery under ENOBUFS (the receive side accepts every valid plan: rt_bytes_* + window M-queries)",
@@ -256,6 +256,7 @@ _set_b = "unwind 14; <= 3 members, <= 2 selects, messages of 1 and 2 packets"
 for n in ["rxset_one_member", "rxset_two_multi", "rxset_closed_then_other", "rxset_add_queued_two", "rxset_id_after_close"]:
     H(n, ["C06"], sym=_set_sym, bounds=_set_b)
 H("rxset_backlog_65", ["C06"], features="k_q,bigq", timeout=1500, sym="the last message's byte symbolic; 65 one-byte messages queued on one member before the wait, then its sender goes away", bounds="unwind 70; model configuration bigq (70 packets in flight)")
+H("rxset_add_refused", ["C11", "C06"], sym=_set_sym + "; the second add's registration with the poller is refused (epoll_ctl: ENOSPC)", bounds=_set_b)
 H("rxset_one_member_eintr", ["C06"], sym=_set_sym + "; the first wait is interrupted (EINTR)", bounds=_set_b)
 for n in ["rxset_crash_after_1", "rxset_crash_after_2"]:
     H(n, ["C12", "C06"], sym=_set_sym + "; the second member's only sender dies after 1 / 2 of 3 packets", bounds=_set_b)
